@@ -5,6 +5,7 @@ import "github.com/mmcloughlin/avo/ir"
 func init() { props["C02"] = c02 }
 
 func c02(c *Ctx) {
+	defer maskSetFile(c) // reg/set.go: the set algebra liveness is computed with
 	rng := NewRNG(c.Seed)
 	n := 320
 	if c.Thorough() {
